@@ -186,7 +186,7 @@ fn conveniences() -> R {
     let direct = e.add_assertion(p.clone(), o.clone());
     let a_env = Envelope::new_assertion(p.clone(), o.clone());
     let same = |x: &Envelope, y: &Envelope, what: &str| -> R { if bytes(x) == bytes(y) { Ok(()) } else { rt::viol("convenience builder differs from the primitive operation", what.to_string()) } };
-    match choice(9) {
+    match choice(11) {
         0 => { op("add_assertion_if"); same(&e.add_assertion_if(true, p.clone(), o.clone()), &direct, "add_assertion_if(true)")?; same(&e.add_assertion_if(false, p.clone(), o.clone()), &e, "add_assertion_if(false)")?; }
         1 => { op("add_assertion_envelope_if"); same(&must!(e.add_assertion_envelope_if(true, a_env.clone()), "refused"), &direct, "add_assertion_envelope_if(true)")?; same(&must!(e.add_assertion_envelope_if(false, a_env.clone()), "refused"), &e, "add_assertion_envelope_if(false)")?;
                ensure!(e.add_assertion_envelope_if(false, build(&l(9))).is_ok(), "add_assertion_envelope_if(false, ..) must not look at its argument", ""); ensure!(e.add_assertion_envelope_if(true, build(&l(9))).is_err(), "a non-assertion was accepted as assertion", ""); }
@@ -201,6 +201,34 @@ fn conveniences() -> R {
                ensure!(t.is_true() && !t.is_false() && !t.is_null() && f.is_false() && !f.is_true() && nl.is_null() && !nl.is_true() && !e.is_true() && !e.is_null(), "is_true / is_false / is_null wrong", "");
                ensure!(bytes(&t) == vec![0xd8, 0xc8, 0xd8, 0xc9, 0xf5] && bytes(&f) == vec![0xd8, 0xc8, 0xd8, 0xc9, 0xf4] && bytes(&nl) == vec![0xd8, 0xc8, 0xd8, 0xc9, 0xf6], "true / false / null encoding wrong", ""); }
         7 => { op("add_assertions_salted(false)"); let extra = [a_env.clone(), Envelope::new_assertion(leaf_text(62), leaf_text(63))]; let want = must!(e.add_assertion_envelopes(&extra), "refused"); same(&e.add_assertions_salted(&extra, false), &want, "add_assertions_salted(false)")?; same(&e.add_assertions(&extra), &want, "add_assertions")?; }
+        8 => {
+            // encrypt / decrypt are wrap + encrypt_subject / decrypt_subject + unwrap, for every receiver (a wrapped one too)
+            op("encrypt / decrypt");
+            let key = test_key();
+            let x = e.encrypt(&key);
+            ensure!(dg(&x) == dg(&e.wrap_envelope()) && kind(&x) == Kind::Encrypted, "encrypt() is not the encrypted wrapped receiver", "");
+            same(&must!(x.decrypt(&key), "decrypt failed"), &e, "decrypt(encrypt(e))")?;
+            same(&must!(must!(x.decrypt_subject(&key), "decrypt_subject failed").unwrap_envelope(), "unwrap failed"), &e, "decrypt_subject + unwrap_envelope of encrypt(e)")?;
+            let y = must!(e.wrap_envelope().encrypt_subject(&key), "encrypt_subject failed");
+            same(&must!(y.decrypt(&key), "decrypt failed"), &e, "decrypt of wrap_envelope + encrypt_subject")?;
+        }
+        9 => {
+            // signature metadata given with a repeated assertion (adjacent or not) is the metadata without the repeat
+            op("add_signature_opt (metadata with a repeated assertion)");
+            let (sk, _) = bc_components::SignatureScheme::Ed25519.keypair_using(&mut super::c04::seeded_rng(9), "").unwrap();
+            let (m1, m2, m3) = ((known_values::NOTE, leaf_text(64)), (leaf_text(65), leaf_text(66)), (leaf_text(67), leaf_text(68)));
+            let plain = SignatureMetadata::new().with_assertion(m1.0.clone(), m1.1.clone()).with_assertion(m2.0.clone(), m2.1.clone()).with_assertion(m3.0.clone(), m3.1.clone());
+            let want = e.add_signature_opt(&sk, None, Some(plain));
+            if let Err(m) = well_formed(&want) { return rt::viol("signed envelope not canonical", m); }
+            let seqs: [&[usize]; 5] = [&[0, 1, 0, 2], &[0, 0, 1, 2], &[2, 1, 0, 2], &[1, 2, 0, 1, 0], &[2, 0, 1]];
+            let sq = seqs[choice(seqs.len())];
+            let ms = [&m1.1, &m2.1, &m3.1];
+            let mut md = SignatureMetadata::new();
+            for &i in sq { md = if i == 0 { md.with_assertion(known_values::NOTE, ms[0].clone()) } else { md.with_assertion(if i == 1 { m2.0.clone() } else { m3.0.clone() }, ms[i].clone()) }; }
+            let got = e.add_signature_opt(&sk, None, Some(md));
+            if let Err(m) = well_formed(&got) { return rt::viol("signed envelope not canonical", format!("metadata order {:?}: {}", sq, m)); }
+            same(&got, &want, &format!("signature metadata given in order {:?}", sq))?;
+        }
         _ => { op("From<&Envelope> / to_envelope"); same(&Envelope::from(&e), &e, "From<&Envelope>")?; same(&Envelope::new(e.clone()), &e, "Envelope::new(envelope)")?; same(&e.to_envelope(), &e, "to_envelope")?; }
     }
     ensure!(bytes(&e) == b0, "a convenience builder altered its receiver", "");
@@ -289,7 +317,7 @@ pub fn prop() -> Prop {
                 bounds: "subject in 7 cases (leaf, known value, wrapped leaf, assertion, wrapped node, elided, compressed) x 1..4 assertions (quick; 1..5 thorough), each of 5 (quick) / 7 (thorough) kinds when <=3 assertions (plain, known-value predicate, decorated, elided, the same fact decorated differently; thorough adds node object, compressed), plain beyond x every insertion permutation x one repetition at every place x every digest order; bulk add, add/remove round trips, wrap/unwrap, replace_subject",
                 api: &["Envelope::new", "new_assertion", "add_assertion_envelope", "add_assertion_envelopes", "remove_assertion", "replace_subject", "wrap_envelope", "unwrap_envelope", "elide", "compress", "tagged_cbor", "digest", "is_identical_to"] },
             Scenario { name: "conveniences", f: conveniences, thorough_only: false,
-                bounds: "5 receivers x 9 groups of convenience builders (add_assertion_if, add_assertion_envelope_if, add_optional_assertion, add_nonempty_string_assertion, add_optional_assertion_envelope(_salted), new_or_null / new_or_none, true / false / null, add_assertions(_salted false), From<&Envelope> / to_envelope) against the primitive operation x every digest order",
+                bounds: "5 receivers x 11 groups of convenience builders (encrypt / decrypt against wrap + encrypt_subject / decrypt_subject + unwrap, signature metadata given with repeats and in another order (Ed25519), add_assertion_if, add_assertion_envelope_if, add_optional_assertion, add_nonempty_string_assertion, add_optional_assertion_envelope(_salted), new_or_null / new_or_none, true / false / null, add_assertions(_salted false), From<&Envelope> / to_envelope) against the primitive operation x every digest order",
                 api: &["add_assertion_if", "add_assertion_envelope_if", "add_optional_assertion", "add_nonempty_string_assertion", "add_optional_assertion_envelope", "add_optional_assertion_envelope_salted", "new_or_null", "new_or_none", "true", "false", "null", "is_true", "is_false", "is_null", "add_assertions_salted"] },
             Scenario { name: "crafted_digests", f: crafted_digests, thorough_only: false,
                 bounds: "2..4 assertion elements, all but one elided with sender-chosen digests that agree in the first 31 (one: first 8) bytes, every insertion permutation x every digest order",
